@@ -377,8 +377,8 @@ theorem spendSetup_good (h : HashCtx) (tc : TapCtx) (vcx : VCtx) (cb : CheckerBu
 
 /-! ## the `--pretend-valid` evaluator -/
 
-theorem pretendLoop_only_int (vcx : VCtx) : ∀ (fuel : Nat) (text : Bytes) (st : PretendState),
-    VOnlyIntAbn (pretendLoop vcx fuel text st) := by
+theorem pretendLoop_noabn (vcx : VCtx) : ∀ (fuel : Nat) (text : Bytes) (st : PretendState),
+    VNoAbn (pretendLoop vcx fuel text st) := by
   intro fuel
   induction fuel with
   | zero => intro text st k h; simp [pretendLoop, pure, Except.pure] at h
@@ -394,7 +394,7 @@ theorem pretendLoop_only_int (vcx : VCtx) : ∀ (fuel : Nat) (text : Bytes) (st 
         | error e =>
           simp only [hv] at h
           cases h
-          exact valueData_only_int vcx _ k hv
+          exact valueData_noabn vcx _ k hv
         | ok s =>
           simp only [hv] at h
           split at h
@@ -405,109 +405,25 @@ theorem pretendLoop_only_int (vcx : VCtx) : ∀ (fuel : Nat) (text : Bytes) (st 
             · cases h
             · exact ih _ _ k h
 
-theorem pretendField_mem : ∀ (text acc : Bytes),
-    (∀ c ∈ (pretendField text acc).1, c ∈ text ∨ c ∈ acc) ∧ (∀ c ∈ (pretendField text acc).2.2, c ∈ text) := by
-  intro text
-  induction text with
-  | nil => intro acc; simp [pretendField]
-  | cons x xs ih =>
-    intro acc
-    simp only [pretendField]
-    split
-    · refine ⟨?_, ?_⟩
-      · intro c hc; right; simpa using hc
-      · intro c hc; simp only at hc; exact List.mem_cons_of_mem _ hc
-    · obtain ⟨h1, h2⟩ := ih (x :: acc)
-      refine ⟨?_, ?_⟩
-      · intro c hc
-        rcases h1 c hc with h | h
-        · left; exact List.mem_cons_of_mem _ h
-        · simp only [List.mem_cons] at h
-          rcases h with rfl | h
-          · left; simp
-          · right; exact h
-      · intro c hc; exact List.mem_cons_of_mem _ (h2 c hc)
-
-theorem pretendLoop_noabn_of_no_paren (vcx : VCtx) : ∀ (fuel : Nat) (text : Bytes) (st : PretendState),
-    (∀ c ∈ text, c.toNat ≠ 40) → VNoAbn (pretendLoop vcx fuel text st) := by
-  intro fuel
-  induction fuel with
-  | zero => intro text st _ k h; simp [pretendLoop, pure, Except.pure] at h
-  | succ n ih =>
-    intro text st hp k h
-    obtain ⟨hf1, hf2⟩ := pretendField_mem text []
-    have hfield : ∀ c ∈ (pretendField text []).1, c.toNat ≠ 40 := by
-      intro c hc
-      rcases hf1 c hc with h | h
-      · exact hp c h
-      · cases h
-    have hrest : ∀ c ∈ (pretendField text []).2.2, c.toNat ≠ 40 := fun c hc => hp c (hf2 c hc)
-    simp only [pretendLoop] at h
-    split at h
-    · simp [pure, Except.pure] at h
-    · simp only [bind, Except.bind, pure, Except.pure] at h
-      split at h
-      · cases h
-      · cases hv : valueData vcx (pretendField text []).1 with
-        | error e =>
-          simp only [hv] at h
-          cases h
-          exact valueData_noabn_of_no_paren vcx _ hfield k hv
-        | ok s =>
-          simp only [hv] at h
-          split at h
-          · split at h
-            · cases h
-            · exact ih _ _ hrest k h
-          · split at h
-            · cases h
-            · exact ih _ _ hrest k h
-
-/-- `--pretend-valid=…`: the only possible abnormal outcome is the uncaught `scriptnum_error` of `int(…)` -/
-theorem parsePretendValidExpr_only_int (vcx : VCtx) (expr : Bytes) : VOnlyIntAbn (parsePretendValidExpr vcx expr) := by
+/-- `--pretend-valid=…` never ends abnormally (an `int(…)` overflow in a field is a C++ exception that `main`
+    catches: `error parsing --pretend-valid: script number overflow`, exit status 1) -/
+theorem parsePretendValidExpr_noabn (vcx : VCtx) (expr : Bytes) : VNoAbn (parsePretendValidExpr vcx expr) := by
   intro k h
   unfold parsePretendValidExpr at h
   simp only [bind, Except.bind, pure, Except.pure] at h
   split at h
   · rename_i e he
     cases h
-    exact pretendLoop_only_int vcx _ _ _ k he
+    exact pretendLoop_noabn vcx _ _ _ k he
   · split at h
     · cases h
     · split at h <;> cases h
 
-theorem takeWhile_mem {α} (p : α → Bool) : ∀ (l : List α) (c : α), c ∈ l.takeWhile p → c ∈ l := by
-  intro l c h
-  exact (List.takeWhile_sublist p).subset h
-
-/-- …and none at all when the text contains no opening parenthesis (no inline function call) -/
-theorem parsePretendValidExpr_noabn_of_no_paren (vcx : VCtx) (expr : Bytes) (hp : ∀ c ∈ expr, c.toNat ≠ 40) :
-    VNoAbn (parsePretendValidExpr vcx expr) := by
-  intro k h
-  unfold parsePretendValidExpr at h
-  simp only [bind, Except.bind, pure, Except.pure] at h
-  split at h
-  · rename_i e he
-    cases h
-    refine pretendLoop_noabn_of_no_paren vcx _ _ _ ?_ k he
-    intro c hc
-    exact hp c (takeWhile_mem _ _ _ hc)
-  · split at h
-    · cases h
-    · split at h <;> cases h
-
-/-- `spendSetup` can only die of the uncaught `scriptnum_error` of an `int(…)` call in a `--pretend-valid` field -/
-theorem spendSetup_only_int (h : HashCtx) (tc : TapCtx) (vcx : VCtx) (cb : CheckerBuilder) (a : SpendArgs) :
-    VOnlyIntAbn (spendSetup h tc vcx cb a) := by
+/-- `spendSetup` never ends abnormally -/
+theorem spendSetup_noabn (h : HashCtx) (tc : TapCtx) (vcx : VCtx) (cb : CheckerBuilder) (a : SpendArgs) :
+    VNoAbn (spendSetup h tc vcx cb a) := by
   intro k hk
   obtain ⟨p, _, hp⟩ := spendSetup_abnormal_only_pretend h tc vcx cb a k hk
-  exact parsePretendValidExpr_only_int vcx p k hp
-
-/-- without `--pretend-valid`, or with one that has no opening parenthesis, `spendSetup` never ends abnormally -/
-theorem spendSetup_noabn (h : HashCtx) (tc : TapCtx) (vcx : VCtx) (cb : CheckerBuilder) (a : SpendArgs)
-    (hp : ∀ p, a.pretend = some p → ∀ c ∈ p, c.toNat ≠ 40) : VNoAbn (spendSetup h tc vcx cb a) := by
-  intro k hk
-  obtain ⟨p, hpp, hpe⟩ := spendSetup_abnormal_only_pretend h tc vcx cb a k hk
-  exact parsePretendValidExpr_noabn_of_no_paren vcx p (hp p hpp) k hpe
+  exact parsePretendValidExpr_noabn vcx p k hp
 
 end Btcdeb.Model
